@@ -4,13 +4,18 @@ Model: lean/HydroVerif/Model/C16.lean (imports the grid geometry of Model/C07.le
 theorems: lean/HydroVerif/Props/C16.lean.
 Correspondence (Float instance of the model vs the real code on the freshly built extension; bit-exact on the
 unchanged tree, accepted up to the rounding of the weight sums, 4 + ncells ulp — see `tolerant_equal`):
-`Catchment.intersect(grid, filled)` -> (area_grid, idxcells, weights) with the sub-grid corner, shape, data array
-and parent row/column bookkeeping; the kernel `c_hydrodiy_gis.intersect` on raw point lists (edges, outside on
+`Catchment.intersect(grid, filled)` (keyword, positional, and `filled` left at its default) -> (area_grid, idxcells,
+weights) with the sub-grid corner, shape, data array, parent row/column bookkeeping, cell size and the parentgrid_*
+geometry attributes; the kernel `c_hydrodiy_gis.intersect` on raw point lists (edges, outside on
 every side, NaN rows, repeats); `hydrodiy.gis.grid.voronoi` and the kernel `c_hydrodiy_gis.voronoi`. The listing
 order of the intersected cells is not compared (the property does not fix it): (cell, weight) pairs are sorted.
 The exact (`Rat`) instance of the model — the one the theorems are about — is compared with the code on every
 case the exact oracle can decide (no centre within 1e-9 cells of a coarse edge unless the float pipeline is exact;
-no near-tie between Voronoi points unless exact or bitwise duplicates).
+no near-tie between Voronoi points unless exact or bitwise duplicates); on the same cases the driver evaluates the
+property's executable statement (`specWeight`, `specArea`, request `specQ`) and the weights are compared bit for bit
+with `repAdd areafactor (count - 1)` (request `repadd`, counts from the exact oracle: theorem cIntersect_weight_repAdd,
+which holds for Float). Whole histories are also replayed through the model's `hrun` (request `hist`): every call's
+answer and the objects at the end.
 Oracle (failing-input search, real code only, exact rationals, independent of the model): every catchment-cell
 centre is located in the coarse grid by floor on exact fractions; expected weights = count x (csz_area/csz)^2;
 cells distinct; sum(w) x csz^2 = inside count x csz_area^2; sub-grid rows/cols = min/max of the listed cells, data
@@ -28,17 +33,23 @@ inside it; filled and unfilled. Voronoi: the same catchments with 1..6 points in
 cell centres / mirrored about centres (equidistant) / bitwise duplicates / lattice coordinates / 1e30..1e150
 away / pairs whose distances to a cell differ by a relative 1e-9..1e-7 with the closer point at the higher index
 (and mirrored; judged by exact rational squared distances: only differences within the rounding of the coordinates, a
-few ulp, are left unjudged); more points than cells and more cells than points. A case is non-trivial when at least one centre is
+few ulp, are left unjudged); more points than cells and more cells than points; the points are handed to `grid.voronoi` as a C-ordered array, a
+Fortran-ordered one, `np.array([x, y]).T`, strided row / column views, nested lists or tuples of tuples (the same
+values: the same answer is required). A case is non-trivial when at least one centre is
 inside the coarse grid (intersection) or always (Voronoi). Malformed stream: no overlap (ValueError), zero points
 (error), a catchment without cells (NaN weights, ValueError). Glue stream (error kinds by name, compared with the
 model's `Catchment.intersect` / `voronoiPy`): catchment not delineated (TypeError / ValueError), points argument as a
 scalar, flat [x, y], flat of other lengths, (n, 1), (n, 3), (0, 2), (0, 3) arrays, grids without rows / columns.
-History stream: one Catchment, one Grid, one points array through 3-4 steps: call, then one of {edit the returned
-idxcells / weights / weight grid / Voronoi weights in place, shift / rescale / reshape (incl. rows<->cols swap, same
-size) the Grid, shift / rescale / swap the flow-direction grid, overwrite the held cell arrays in place with as many
-other cells, delineate again from another outlet, clone / deepcopy / pickle the Catchment and the Grid and keep both,
-move / reverse / duplicate the points in place, toggle filled, nothing}, then call again on every object; every
-answer is compared with the model and the oracle evaluated on the state read from the public attributes.
+History stream: Catchment, Grid and points objects through 3-4 steps: call, then one of {edit the returned idxcells /
+weights / weight grid / Voronoi weights in place, shift / rescale / reshape (incl. rows<->cols swap, same size) the
+Grid, give it a cell size <= 0 or no rows / columns (outside the quantifier: correspondence only), shift / rescale /
+swap the flow-direction grid, overwrite the held cell arrays in place with as many other cells, delineate again from
+another outlet, clone / deepcopy / pickle the Catchment and the Grid and keep both, delineate a second catchment and
+add / subtract two live catchments (`+`, `-`), move / reverse / duplicate the points in place, toggle filled,
+nothing}, then call again on every object (every third history on a catchment with a hole); the state every answer is
+judged against (model and oracle) is tracked from the values the harness assigns — never re-read from an object after
+a call, so a call that changes an object it should only read shows in the next answers — and the operation list is
+replayed through `hrun`.
 """
 import json
 import math
@@ -48,6 +59,7 @@ from fractions import Fraction as F
 from . import common as C
 
 PID = "C16"
+NTOK = 18            # tokens of an `ok ...` reply to isect / isectc (see Drivers/C16.lean)
 MARGIN = F(1, 10 ** 9)
 OUT, AMB = "out", "amb"
 
@@ -279,6 +291,9 @@ class Stream:
     def __init__(self):
         self.reqs, self.impls, self.cases, self.canon = [], [], [], []
         self.qreqs, self.qinfo = [], []
+        self.last_isect = self.last_vor = None
+        self.ncall = 0
+        self.hreqs, self.hinfo = [], []
 
     def add(self, req, impl, case, canon=None):
         self.reqs.append(req)
@@ -312,7 +327,8 @@ def tolerant_equal(impl, rep, case):
       speaks first on a doubly invalid call, which exception class or message rejects an input outside the property's
       quantifier, is not fixed by the property (the harness attributes kernel codes to guards by the source text next
       to the `return`, which a merged guard changes); accepting what the model rejects, or rejecting what it accepts,
-      is a disagreement;
+      is a disagreement — except on the geometries outside the quantifier that the `degenerate` probes use (cell size <= 0,
+      no rows / columns: `outside_quantifier` in the case), where either side may reject;
     * weights that differ by the rounding of a sum of `count` equal terms taken in another order / as a product:
       4 + (number of cells or points of the case) ulp;
     * the corner of the weight grid (tokens xllcorner, yllcorner of an intersect reply) within 8 ulp of the coordinate
@@ -320,6 +336,10 @@ def tolerant_equal(impl, rep, case):
       `ll + start * csz` round differently in the last bits;
     every integer (cells, rows/cols start/end, shape) and the layout must be identical."""
     if impl.startswith("err") and rep.startswith("err"):
+        return True
+    if case.get("outside_quantifier") and (impl.startswith("err") or rep.startswith("err")):
+        # cell size <= 0, no rows / columns: whether such a geometry is rejected or computed with is not fixed by the
+        # property (a guard added in front of the kernel is not a disagreement); when both answer, they must agree
         return True
     ti, tm = impl.split(" "), rep.split(" ")
     if len(ti) != len(tm) or impl.startswith("err") or rep.startswith("err"):
@@ -332,7 +352,7 @@ def tolerant_equal(impl, rep, case):
         fa, fb = _floats(a), _floats(b)
         if fa is None or fb is None or len(fa) != len(fb) or a.count(";") != b.count(";"):
             return False
-        if len(ti) == 12 and pos in (7, 8) and co is not None and len(fa) == 1:
+        if len(ti) == NTOK and pos in (7, 8) and co is not None and len(fa) == 1:
             lo, m = (co["xll"], co["ncols"]) if pos == 7 else (co["yll"], co["nrows"])
             budget = 8 * (abs(lo) + abs(co["csz"]) * (m + 1)) * 2.0 ** -52
             if not abs(fa[0] - fb[0]) <= budget:
@@ -346,7 +366,7 @@ def tolerant_equal(impl, rep, case):
 def canon_isect(reply):
     """sort the (cell, weight) pairs of an `ok ...` reply; everything else unchanged"""
     t = reply.split(" ")
-    if t[0] != "ok" or len(t) != 12:
+    if t[0] != "ok" or len(t) != NTOK:
         return reply
     pairs = sorted(zip([int(k) for k in C.parse_list(t[1])], C.parse_list(t[2])))
     t[1] = C.ilist([k for k, _ in pairs])
@@ -444,36 +464,74 @@ def opt_ilist(cells):
     return "none" if cells is None else C.ilist(cells)
 
 
-def run_intersect(ctx, st, mods, ca, fine, coarse, cells, filled, tag, origin="gen", gobj=None, hist=None):
+def isect_impl(np, gr, pairs):
+    """what `Catchment.intersect` returned, as the driver prints it (pairs = sorted (cell, weight))"""
+    data = np.asarray(gr.data, dtype=np.float64)
+    return (f"ok {C.ilist([k for k, _ in pairs])} {C.flist([v for _, v in pairs])} "
+            f"{int(gr.parentgrid_rows_start)} {int(gr.parentgrid_rows_end)} "
+            f"{int(gr.parentgrid_cols_start)} {int(gr.parentgrid_cols_end)} "
+            f"{C.f2h(gr.xllcorner)} {C.f2h(gr.yllcorner)} {int(gr.nrows)} {int(gr.ncols)} {C.fmat(data.tolist())} "
+            f"{C.f2h(gr.cellsize)} {int(gr.parentgrid_nrows)} {int(gr.parentgrid_ncols)} {C.f2h(gr.parentgrid_cellsize)} "
+            f"{C.f2h(gr.parentgrid_xllcorner)} {C.f2h(gr.parentgrid_yllcorner)}")
+
+
+def isect_error_name(e):
+    msg = str(e)
+    if isinstance(e, ValueError) and "zero-size array" in msg:
+        return "err:noOverlap"
+    if isinstance(e, ValueError) and "negative dimensions" in msg:
+        return "err:badBuffer"
+    if isinstance(e, TypeError) and "NoneType" in msg:
+        return "err:cellsNone"
+    return f"err:other:{type(e).__name__}:{msg[:80]}".replace(" ", "_")
+
+
+def run_intersect(ctx, st, mods, ca, fine, coarse, cells, filled, tag, origin="gen", gobj=None, hist=None, state=None,
+                  oracle=True):
     """one call of ca.intersect(grid, filled) compared with the model and the oracle on the CURRENT state
-    (`fine`, `coarse`, `cells` describe it); `gobj` is the Grid object to use (a fresh one when None);
+    (`fine`, `coarse`, `cells` describe it; `state` = (area, filled) lists when the caller tracks them, else they are
+    read from the object); `gobj` is the Grid object to use (a fresh one when None); `oracle=False` (geometry outside
+    the property's quantifier: cell size <= 0, no rows / columns): correspondence only;
     returns what the call returned, or None"""
     np, Grid, Catchment = mods[:3]
     g = gobj if gobj is not None else Grid("coarse", ncols=coarse["ncols"], nrows=coarse["nrows"], cellsize=coarse["csz"],
                                             xllcorner=coarse["xll"], yllcorner=coarse["yll"])
-    area_l, filled_l = cells_of(ca, "idxcells_area"), cells_of(ca, "idxcells_area_filled")
+    st.last_isect = None
+    if state is not None:
+        area_l, filled_l = state
+    else:
+        area_l, filled_l = cells_of(ca, "idxcells_area"), cells_of(ca, "idxcells_area_filled")
     case = {"kind": "intersect", "fine": fine, "coarse": coarse, "filled": filled, "area": area_l, "filled_cells": filled_l}
     if hist is not None:
         case["history"] = list(hist)
         tag = "history/" + tag
-    req = f"isectc {geom_tok(coarse)} {geom_tok(fine)} {opt_ilist(area_l)} {opt_ilist(filled_l)} {1 if filled else 0}"
+    # the three ways of saying `filled`: keyword, positional, and (for False) not at all — the default
+    st.ncall += 1
+    how = ("kw", "pos", "default")[st.ncall % 3] if not filled else ("kw", "pos")[st.ncall % 2]
+
+    def call():
+        if how == "default":
+            return ca.intersect(g)
+        return ca.intersect(g, filled) if how == "pos" else ca.intersect(g, filled=filled)
+    req = (f"isectc {geom_tok(coarse)} {geom_tok(fine)} {opt_ilist(area_l)} {opt_ilist(filled_l)} "
+           f"{'d' if how == 'default' else (1 if filled else 0)}")
     if cells is None:
         # not delineated: outside the property's quantifier, correspondence of the error kind only
         try:
             with warnings.catch_warnings():
                 warnings.simplefilter("ignore")
-                ca.intersect(g, filled=filled)
+                call()
             impl = "ok:unexpected"
         except Exception as e:
-            impl = "err:cellsNone" if isinstance(e, TypeError) and "NoneType" in str(e) \
-                else f"err:other:{type(e).__name__}:{str(e)[:80]}".replace(" ", "_")
+            impl = isect_error_name(e)
         ctx.count(("isect-none", geom_tok(fine), geom_tok(coarse), filled), False, f"intersect/{tag}/not_delineated")
         st.add(req, impl, case, canon_isect)
+        st.last_isect = impl
         return None
     # pre-flight on padded buffers: Catchment.intersect hands the kernel nrows*ncols slots and the kernel does not
     # check them, so a kernel that lists a cell twice would write past the end of the wrapper's arrays
     gis = mods[4]
-    ncoarse = coarse["nrows"] * coarse["ncols"]
+    ncoarse = max(coarse["nrows"] * coarse["ncols"], 0)
     xy = np.ascontiguousarray(ca.flowdir.cell2coord(np.array(cells, dtype=np.int64)), dtype=np.float64)
     pn, pidx = np.zeros(1, dtype=np.int64), np.zeros(ncoarse + len(cells) + 1, dtype=np.int64)
     pw = np.zeros(ncoarse + len(cells) + 1, dtype=np.float64)
@@ -488,10 +546,20 @@ def run_intersect(ctx, st, mods, ca, fine, coarse, cells, filled, tag, origin="g
     with warnings.catch_warnings():
         warnings.simplefilter("ignore")
         try:
-            gr, idx, w = ca.intersect(g, filled=filled)
+            gr, idx, w = call()
         except Exception as e:
-            err = "err:noOverlap" if isinstance(e, ValueError) and "zero-size array" in str(e) \
-                else f"err:other:{type(e).__name__}:{str(e)[:80]}".replace(" ", "_")
+            err = isect_error_name(e)
+    if not oracle:
+        # outside the property's quantifier: when both answer, the model still has to answer what the code answers
+        case["outside_quantifier"] = True
+        ctx.count(("isect-degenerate", geom_tok(fine), geom_tok(coarse), tuple(cells)), False, f"intersect/{tag}")
+        if err is None:
+            idx, w = [int(v) for v in idx], [float(v) for v in w]
+            pairs = sorted(zip(idx, w))
+            err = isect_impl(np, gr, pairs)
+        st.add(req, err, case, canon_isect)
+        st.last_isect = err
+        return None
     loc, on_edge = locate_cells(fine, coarse, cells)
     namb = sum(1 for v in loc if v == AMB)
     expect = {}
@@ -506,6 +574,7 @@ def run_intersect(ctx, st, mods, ca, fine, coarse, cells, filled, tag, origin="g
               sample={k: case[k] for k in ("fine", "coarse", "filled")} if origin == "gen" and ninside > 0 else None)
     if err is not None:
         st.add(req, err, case, canon_isect)
+        st.last_isect = err
         if ninside > 0:
             ctx.finding("intersect/raises_with_overlap", "intersect raises although catchment centres fall inside the grid",
                         {**case, "error": err, "inside": ninside})
@@ -517,9 +586,9 @@ def run_intersect(ctx, st, mods, ca, fine, coarse, cells, filled, tag, origin="g
     rs, re_, cs, ce = (int(gr.parentgrid_rows_start), int(gr.parentgrid_rows_end),
                        int(gr.parentgrid_cols_start), int(gr.parentgrid_cols_end))
     data = np.asarray(gr.data, dtype=np.float64)
-    impl = (f"ok {C.ilist([k for k, _ in pairs])} {C.flist([v for _, v in pairs])} {rs} {re_} {cs} {ce} "
-            f"{C.f2h(gr.xllcorner)} {C.f2h(gr.yllcorner)} {int(gr.nrows)} {int(gr.ncols)} {C.fmat(data.tolist())}")
+    impl = isect_impl(np, gr, pairs)
     st.add(req, impl, case, canon_isect)
+    st.last_isect = impl
 
     # ------------------------------------------------------------------ oracle
     got = {"idxcells": idx, "weights": w}
@@ -611,6 +680,13 @@ def run_intersect(ctx, st, mods, ca, fine, coarse, cells, filled, tag, origin="g
         return ret
     if namb == 0:
         st.addq(f"isectQ {geom_tok_q(coarse)} {geom_tok_q(fine)} {C.ilist(cells)}", ("isect", pairs, (rs, re_, cs, ce), case))
+        # the property's executable statement (specWeight / specArea of the model) evaluated next to the model's listing
+        st.addq(f"specQ {geom_tok_q(coarse)} {geom_tok_q(fine)} {C.ilist(cells)}", ("spec", pairs, ninside, case))
+        # theorem cIntersect_weight_repAdd, true of Float: the weight of a cell holding n centres is areafactor added n
+        # times by the loop's own `+` — n is the oracle's exact count, the comparison is bit for bit
+        af = (fine["csz"] / coarse["csz"]) * (fine["csz"] / coarse["csz"])
+        st.add(f"repadd {C.f2h(af)} {C.ilist([expect[k] for k, _ in pairs])}", C.flist([v for _, v in pairs]),
+               {**case, "entry": "weights as repeated addition of the area factor, counts from the exact oracle"})
     return ret
 
 
@@ -673,6 +749,9 @@ def run_kernel(ctx, st, mods, gis, g, csz_area, pts, tag):
                             "weight differs from (number of points in the cell) x (csz_area/csz)^2",
                             {**case, **got, "cell": c, "count": expect[c], "expected": float(expect[c] * ratio2)})
                 return
+        af = (csz_area / g["csz"]) * (csz_area / g["csz"])
+        st.add(f"repadd {C.f2h(af)} {C.ilist([expect[c] for c, _ in pairs])}", C.flist([v for _, v in pairs]),
+               {**case, "entry": "weights as repeated addition of the area factor, counts from the exact oracle"})
         fin = [(F(p[0]), F(p[1])) for p in pts if math.isfinite(p[0]) and math.isfinite(p[1])]
         if fin and len(fin) == len(pts):
             st.addq(f"kernQ {geom_tok_q(g)} {C.rat(csz_area)} {pairs_tok(fin, C.rat)}", ("kern", pairs, None, case))
@@ -783,6 +862,28 @@ def gen_points(rng, fine, cells, i):
     return [(float(x), float(y)) for x, y in pts], kind
 
 
+LAYOUTS = ["c", "f", "xyT", "strided", "colview", "list", "tuples", "c"]
+
+
+def points_arg(np, pts, layout):
+    """the same points in another representation: every one of them is an (n, 2) arrangement of the same float64
+    values, so `grid.voronoi` has to return the same weights (the property quantifies over points, not over layouts)"""
+    a = np.array(pts, dtype=np.float64).reshape(-1, 2)
+    if layout == "f":
+        return np.asfortranarray(a)
+    if layout == "xyT":
+        return np.array([a[:, 0], a[:, 1]]).T          # two coordinate vectors paired the usual way: Fortran-ordered
+    if layout == "strided":
+        return np.repeat(a, 2, axis=0)[::2]
+    if layout == "colview":
+        return np.hstack([a, a + 1.0])[:, :2]
+    if layout == "list":
+        return [[float(x), float(y)] for x, y in pts]
+    if layout == "tuples":
+        return tuple((float(x), float(y)) for x, y in pts)
+    return a
+
+
 def voronoi_expect(fine, cells, pts):
     """exact first arg-min per cell -> (counts per point, number of undecidable cells, some tie resolved by index?)"""
     npts = len(pts)
@@ -872,16 +973,22 @@ def wrapper_error_name(e):
     return f"err:other:{type(e).__name__}:{msg[:60]}".replace(" ", "_")
 
 
-def run_voronoi(ctx, st, mods, gis, voronoi, ca, fine, cells, pts, tag, wrapper_ok, origin="gen", hist=None, parr=None):
+def run_voronoi(ctx, st, mods, gis, voronoi, ca, fine, cells, pts, tag, wrapper_ok, origin="gen", hist=None, parr=None,
+                layout="c", oracle=True):
     """kernel and wrapper on the CURRENT state (`fine`, `cells`, `pts`); `parr` = the points array object to hand to
-    the wrapper (a fresh one when None); returns the array the wrapper returned, or None"""
+    the wrapper (a fresh one in representation `layout` when None); returns the array the wrapper returned, or None"""
     np = mods[0]
     case = {"kind": "voronoi", "fine": fine, "area": cells, "points": [list(p) for p in pts]}
+    if layout != "c":
+        case["points_layout"] = layout
+    if not oracle:
+        case["outside_quantifier"] = True
     if hist is not None:
         case["history"] = list(hist)
         tag = "history/" + tag
     ncells, npts = len(cells), len(pts)
     wret = None
+    st.last_vor = None
     # kernel, with the point and weight buffers cut out of larger ones (the pinned kernel read xypoints[2*i], i < ncells)
     m = max(ncells, npts, 1)
     big = np.zeros((m + 1, 2), dtype=np.float64)
@@ -898,15 +1005,21 @@ def run_voronoi(ctx, st, mods, gis, voronoi, ca, fine, cells, pts, tag, wrapper_
     req = f"vor {geom_tok(fine)} {C.ilist(cells)} {pairs_tok(pts, C.f2h)}"
     st.add(req, impl, {**case, "entry": "c_hydrodiy_gis.voronoi"})
     w = wk
+    werr = None
     if npts >= 1 and (wrapper_ok or ncells <= npts):
         try:
-            wret = voronoi(ca, parr if parr is not None else np.array(pts, dtype=np.float64))
+            wret = voronoi(ca, parr if parr is not None else points_arg(np, pts, layout))
             w = [float(v) for v in wret]
             implw = "ok " + C.flist(w)
         except Exception as e:
             implw = wrapper_error_name(e)
+            werr = f"{type(e).__name__}: {str(e)[:120]}"
             w = []
         st.add(f"vorpy {geom_tok(fine)} {C.ilist(cells)} rows 2 {C.fmat(pts)}", implw, {**case, "entry": "grid.voronoi"})
+        st.last_vor = implw
+    if not oracle:
+        ctx.count(("vor-degenerate", geom_tok(fine), tuple(cells), tuple(pts)), False, f"voronoi/{tag}")
+        return wret
     if npts < 1 or ncells < 1:
         # outside the property's quantifier (1..6 points, non-empty catchment): correspondence only
         ctx.count(("vor0", geom_tok(fine), tuple(cells), tuple(pts)), False,
@@ -917,6 +1030,13 @@ def run_voronoi(ctx, st, mods, gis, voronoi, ca, fine, cells, pts, tag, wrapper_
               f"voronoi/{tag}/" + ("cells>points" if ncells > npts else "cells<=points") + ("/tie" if tie else "") + ("/amb" if namb else ""),
               sample=case if origin == "gen" and ncells <= 6 else None)
     got = {"weights": w}
+    if werr is not None and ierr == 0 and ncells >= 1:
+        # the kernel answers for these points and this catchment, the wrapper raises: the points were handed over in a
+        # representation the wrapper does not convert (or the wrapper rejects what the kernel accepts)
+        sig = "voronoi/rejects_points_array_layout" if layout != "c" else "voronoi/wrapper_raises"
+        ctx.finding(sig, "grid.voronoi raises on a valid (n, 2) arrangement of 1..6 finite points for a delineated catchment",
+                    {**case, "error": werr, "kernel_weights": wk})
+        return wret
     if ierr != 0 or len(w) != npts:
         ctx.finding("voronoi/error_or_length", "voronoi fails or returns a wrong number of weights", {**case, **got, "ierr": ierr})
         return wret
@@ -1004,13 +1124,32 @@ def run_glue(ctx, st, mods, gis, voronoi, rng, ca, fine, area_l, wrapper_ok, gua
 
 
 # ---------------------------------------------------------------------------------------------
-# histories on one Catchment / Grid / points array: call -> change the state -> call again
+# histories on live objects: call -> change an object -> call again on every object
+def py_union1d(a, b):
+    return sorted(set(a) | set(b))
+
+
+def py_setdiff1d(a, b):
+    return sorted(set(a) - set(b))
+
+
+def degenerate(g):
+    return not (g["csz"] > 0 and g["nrows"] >= 1 and g["ncols"] >= 1)
+
+
 def run_history(ctx, st, mods, gis, voronoi, rng, wrapper_ok, ih):
+    """The state the answers are judged against (`M`, the mirror) is what the *mutators* made of the objects: it is
+    updated from the values the harness assigns, never re-read from an object after a call — a call that changes an
+    object it should only read shows up in the next answers. The same trace is sent to the model's `hrun` (request
+    `hist`) and compared call by call."""
     import copy
     import pickle
     np, Grid, Catchment = mods[:3]
     fine = gen_fine(rng, 13 + ih)
-    mode, via, area, filled_set = gen_cells(rng, fine["nrows"], fine["ncols"], 20 + ih)
+    if ih % 3 == 0:
+        # every third history on a catchment with a hole (filled != unfilled: `filled`, __add__ / __sub__ tell them apart)
+        fine["nrows"], fine["ncols"] = max(fine["nrows"], 3), max(fine["ncols"], 3)
+    mode, via, area, filled_set = gen_cells(rng, fine["nrows"], fine["ncols"], 3 if ih % 3 == 0 else 20 + ih)
     ca, area_l, filled_l = build_catchment(ctx, mods, fine, mode, via, area, filled_set, rng)
     coarse, _, _, ratio = gen_coarse(rng, fine, area_l, 8 + ih)
     g = Grid("coarse", ncols=coarse["ncols"], nrows=coarse["nrows"], cellsize=coarse["csz"],
@@ -1018,34 +1157,65 @@ def run_history(ctx, st, mods, gis, voronoi, rng, wrapper_ok, ih):
     P = np.array(gen_points(rng, fine, area_l, ih)[0], dtype=np.float64)
     st8 = {"filled": rng.random() < 0.4, "ret": None, "wret": None}
     cas, grids, hist = [ca], [g], []
+    M = {"cats": [{"fine": dict(fine), "area": list(area_l), "filled": list(filled_l)}], "grids": [dict(coarse)],
+         "pts": [(float(a), float(b)) for a, b in P]}
+
+    def cat_tok(c):
+        return f"{geom_tok(c['fine'])} {opt_ilist(c['area'])} {opt_ilist(c['filled'])}"
+    head = (f"hist 1 1 {cat_tok(M['cats'][0])} {geom_tok(M['grids'][0])} {pairs_tok(M['pts'], C.f2h)}")
+    ops, calls = [], []          # model-level trace; (index of the op, impl reply, case, canon) of every call
 
     def call_all():
         for i, c in enumerate(cas):
-            f_s = state_of_grid(c.flowdir)
+            mc = M["cats"][i]
+            f_s = dict(mc["fine"])             # copies: the recorded cases must not follow later assignments
             for j, gg in enumerate(grids):
-                if float(gg.cellsize) < f_s["csz"]:
+                g_s = dict(M["grids"][j])
+                deg = degenerate(g_s) or degenerate(f_s)
+                if not deg and g_s["csz"] < f_s["csz"]:
                     continue            # a grid finer than the catchment grid is outside the quantifier (ratios 1 to 4)
-                cells = cells_of(c, "idxcells_area_filled" if st8["filled"] else "idxcells_area")
-                r = run_intersect(ctx, st, mods, c, f_s, state_of_grid(gg), cells, st8["filled"],
-                                  f"step{len(hist)}", origin="history", gobj=gg, hist=hist + [f"on catchment {i} grid {j}"])
+                cells = mc["filled"] if st8["filled"] else mc["area"]
+                r = run_intersect(ctx, st, mods, c, f_s, g_s, cells, st8["filled"],
+                                  f"step{len(hist)}" + ("/degenerate" if deg else ""), origin="history", gobj=gg,
+                                  hist=hist + [f"on catchment {i} grid {j}"],
+                                  state=(None if mc["area"] is None else list(mc["area"]),
+                                         None if mc["filled"] is None else list(mc["filled"])),
+                                  oracle=not deg)
+                if st.last_isect is not None:
+                    calls.append((len(ops), st.last_isect, st.cases[-1] if st.cases else {}, canon_isect))
+                    ops.append(f"is {i} {j} {1 if st8['filled'] else 0}")
                 if i == 0 and j == 0:
                     st8["ret"] = r
-            pts = [(float(a), float(b)) for a, b in P]
-            wr = run_voronoi(ctx, st, mods, gis, voronoi, c, f_s, cells_of(c, "idxcells_area"), pts, f"step{len(hist)}",
-                             wrapper_ok, origin="history", hist=hist + [f"on catchment {i}"], parr=P)
+            if mc["area"] is None:
+                continue
+            wr = run_voronoi(ctx, st, mods, gis, voronoi, c, f_s, list(mc["area"]), list(M["pts"]), f"step{len(hist)}",
+                             wrapper_ok, origin="history", hist=hist + [f"on catchment {i}"], parr=P,
+                             oracle=not degenerate(f_s))
+            if st.last_vor is not None:
+                calls.append((len(ops), st.last_vor, {"kind": "voronoi", "fine": f_s, "area": list(mc["area"]),
+                                                      "points": [list(p) for p in M["pts"]], "history": list(hist),
+                                                      "outside_quantifier": degenerate(f_s)}, None))
+                ops.append(f"vo {i}")
             if i == 0:
                 st8["wret"] = wr
 
-    def mirror(arr, n):
-        arr[...] = (n - 1) - arr
+    def set_grid(j, **kw):
+        M["grids"][j].update(kw)
+        ops.append(f"sg {j} {geom_tok(M['grids'][j])}")
+
+    def set_flowdir(i, **kw):
+        M["cats"][i]["fine"].update(kw)
+        ops.append(f"sf {i} {geom_tok(M['cats'][i]['fine'])}")
 
     call_all()
     for _ in range(rng.randint(2, 3)):
         fd = ca.flowdir
-        n = int(fd.nrows) * int(fd.ncols)
+        mf, mg = M["cats"][0]["fine"], M["grids"][0]
+        n = mf["nrows"] * mf["ncols"]
         m = rng.choice(["edit_returned", "edit_returned", "grid_shift", "grid_cellsize", "grid_shape", "flowdir_shift",
                         "flowdir_cellsize", "flowdir_swap", "cells_inplace", "cells_inplace", "redelineate", "clone",
-                        "points_inplace", "toggle_filled", "same_again"])
+                        "points_inplace", "toggle_filled", "same_again", "combine", "combine", "combine",
+                        "grid_degenerate"])
         if m == "edit_returned":
             if st8["ret"] is not None:
                 gr, idx, w = st8["ret"]
@@ -1055,54 +1225,156 @@ def run_history(ctx, st, mods, gis, voronoi, rng, wrapper_ok, ih):
                 gr.xllcorner = np.float64(1e9)
             if st8["wret"] is not None:
                 st8["wret"][...] = 5.0
+            ops.append("er")
         elif m == "grid_shift":
-            g.xllcorner = np.float64(float(g.xllcorner) + rng.choice([-1.5, -0.5, 0.5, 1.0, 2.5]) * float(fd.cellsize))
-            g.yllcorner = np.float64(float(g.yllcorner) + rng.choice([-1.0, 0.0, 0.5, 1.5]) * float(fd.cellsize))
+            x = mg["xll"] + rng.choice([-1.5, -0.5, 0.5, 1.0, 2.5]) * mf["csz"]
+            y = mg["yll"] + rng.choice([-1.0, 0.0, 0.5, 1.5]) * mf["csz"]
+            g.xllcorner, g.yllcorner = np.float64(x), np.float64(y)
+            set_grid(0, xll=float(x), yll=float(y))
         elif m == "grid_cellsize":
-            g.cellsize = np.float64(float(fd.cellsize) * rng.choice(RATIOS + RATIOS_FRAC))
+            v = mf["csz"] * rng.choice(RATIOS + RATIOS_FRAC)
+            g.cellsize = np.float64(v)
+            set_grid(0, csz=float(v))
         elif m == "grid_shape":
             if rng.random() < 0.5:
-                g.nrows, g.ncols = g.ncols, g.nrows
+                nr, nc = mg["ncols"], mg["nrows"]
             else:
-                g.nrows, g.ncols = np.int64(rng.randint(1, 8)), np.int64(rng.randint(1, 8))
+                nr, nc = rng.randint(1, 8), rng.randint(1, 8)
+            g.nrows, g.ncols = np.int64(nr), np.int64(nc)
+            set_grid(0, nrows=int(nr), ncols=int(nc))
+        elif m == "grid_degenerate":
+            # plain attributes, nothing validated: cell size <= 0, no rows / columns (outside the quantifier:
+            # correspondence only; the theorems' hypothesis 0 < csz is not guarded by the code)
+            k = rng.choice(["csz0", "csz<0", "rows0", "cols0", "neg_shape", "neg_neg"])
+            if k == "csz0":
+                g.cellsize = np.float64(0.0)
+                set_grid(0, csz=0.0)
+            elif k == "csz<0":
+                v = -mf["csz"] * rng.choice([1.0, 2.0])
+                g.cellsize = np.float64(v)
+                set_grid(0, csz=float(v))
+            else:
+                nr, nc = {"rows0": (0, mg["ncols"]), "cols0": (mg["nrows"], 0), "neg_shape": (-1, 3),
+                          "neg_neg": (-2, -2)}[k]
+                g.nrows, g.ncols = np.int64(nr), np.int64(nc)
+                set_grid(0, nrows=int(nr), ncols=int(nc))
+            m = f"grid_degenerate({k})"
         elif m == "flowdir_shift":
-            fd.xllcorner = np.float64(float(fd.xllcorner) + rng.choice([-2.0, 0.5, 1.0]) * float(fd.cellsize))
-            fd.yllcorner = np.float64(float(fd.yllcorner) + rng.choice([-1.0, 0.5, 3.0]) * float(fd.cellsize))
+            x = mf["xll"] + rng.choice([-2.0, 0.5, 1.0]) * mf["csz"]
+            y = mf["yll"] + rng.choice([-1.0, 0.5, 3.0]) * mf["csz"]
+            fd.xllcorner, fd.yllcorner = np.float64(x), np.float64(y)
+            set_flowdir(0, xll=float(x), yll=float(y))
         elif m == "flowdir_cellsize":
-            r = float(g.cellsize) / float(fd.cellsize)
-            fd.cellsize = np.float64(float(fd.cellsize) * rng.choice([0.5, 2.0]))
-            for gg in grids:
-                gg.cellsize = np.float64(float(fd.cellsize) * max(1.0, min(4.0, r)))
+            r = mg["csz"] / mf["csz"] if mf["csz"] else 1.0
+            v = mf["csz"] * rng.choice([0.5, 2.0])
+            fd.cellsize = np.float64(v)
+            set_flowdir(0, csz=float(v))
+            for j, gg in enumerate(grids):
+                vg = v * max(1.0, min(4.0, r))
+                gg.cellsize = np.float64(vg)
+                set_grid(j, csz=float(vg))
         elif m == "flowdir_swap":
-            fd.nrows, fd.ncols = fd.ncols, fd.nrows            # same number of cells: every cell number stays valid
+            nr, nc = mf["ncols"], mf["nrows"]                  # same number of cells: every cell number stays valid
+            fd.nrows, fd.ncols = np.int64(nr), np.int64(nc)
+            set_flowdir(0, nrows=int(nr), ncols=int(nc))
         elif m == "cells_inplace":
-            a, f = ca.idxcells_area, ca.idxcells_area_filled   # the arrays the object holds: edited in place, same length
-            mirror(a, n)
-            if f is not a:
-                mirror(f, n)
+            if M["cats"][0]["area"] is not None:
+                a, f = ca.idxcells_area, ca.idxcells_area_filled   # the arrays the object holds: edited in place, same length
+                a[...] = (n - 1) - a
+                if not np.shares_memory(f, a):
+                    f[...] = (n - 1) - f
+                # the new contents are what was just written: read the two arrays this operation wrote
+                M["cats"][0]["area"], M["cats"][0]["filled"] = [int(v) for v in a], [int(v) for v in f]
+                ops.append(f"sc 0 {C.ilist(M['cats'][0]['area'])} {C.ilist(M['cats'][0]['filled'])}")
         elif m == "redelineate":
-            cur = cells_of(ca, "idxcells_area")
-            if via == "delineate" and cur:
+            cur = M["cats"][0]["area"]
+            if via == "delineate" and cur and not degenerate(mf):
                 ca.delineate_area(rng.choice(cur))     # a sub-catchment (possibly empty: an outlet with nothing upstream)
-        elif m == "clone" and len(cas) < 2:
+                M["cats"][0]["area"] = cells_of(ca, "idxcells_area")            # delineation itself is C06's subject
+                M["cats"][0]["filled"] = cells_of(ca, "idxcells_area_filled")
+                ops.append(f"sc 0 {opt_ilist(M['cats'][0]['area'])} {opt_ilist(M['cats'][0]['filled'])}")
+        elif m == "clone" and len(cas) < 3:
             how = rng.choice(["clone", "deepcopy", "pickle"])
             c2 = ca.clone() if how == "clone" else (copy.deepcopy(ca) if how == "deepcopy" else pickle.loads(pickle.dumps(ca)))
             g2 = copy.deepcopy(g) if rng.random() < 0.5 else pickle.loads(pickle.dumps(g))
             cas.append(c2)
             grids.append(g2)
+            M["cats"].append(copy.deepcopy(M["cats"][0]))
+            M["grids"].append(dict(M["grids"][0]))
+            ops += ["cc 0", "cg 0"]
             m = f"clone({how})"
+        elif m == "combine" and len(cas) < 4:
+            # Catchment.__add__ / __sub__: a new catchment out of two live ones. With a single catchment alive, another
+            # one with other cells (a hole when the grid allows) is delineated first on the same flow-direction geometry
+            # — for the model a clone whose cell arrays are then replaced
+            if len(cas) == 1 and not degenerate(mf) and rng.random() < 0.8:
+                mode2, via2, area2, filled2 = gen_cells(rng, mf["nrows"], mf["ncols"], 3 if rng.random() < 0.6 else 40)
+                cb, a2, f2 = build_catchment(ctx, mods, dict(mf), mode2, via2, area2, filled2, rng)
+                cas.append(cb)
+                M["cats"].append({"fine": dict(mf), "area": list(a2), "filled": list(f2)})
+                ops += ["cc 0", f"sc {len(cas) - 1} {C.ilist(a2)} {C.ilist(f2)}"]
+            i, k = rng.randrange(len(cas)), rng.randrange(len(cas))
+            if len(cas) > 1 and i == k and rng.random() < 0.7:
+                k = (i + 1) % len(cas)
+            how = rng.choice(["add", "sub"])
+            a_, b_ = M["cats"][i], M["cats"][k]
+            try:
+                c3 = cas[i] + cas[k] if how == "add" else cas[i] - cas[k]
+            except ValueError:
+                c3 = None
+            if how == "add":
+                if a_["area"] is not None and b_["area"] is not None:
+                    want = None if a_["filled"] is None or b_["filled"] is None else \
+                        {**copy.deepcopy(a_), "area": py_union1d(a_["filled"], b_["filled"])}
+                else:
+                    want = copy.deepcopy(a_)
+            else:
+                want = None if a_["filled"] is None or b_["filled"] is None else \
+                    {**copy.deepcopy(a_), "area": py_setdiff1d(a_["filled"], b_["filled"])}
+            # what the new object holds is read once, right after its construction: which cells a sum / difference has
+            # is not this property's subject (a difference from the model is a correspondence disagreement, and the
+            # calls that follow are judged against the cells the object actually got)
+            got3 = None if c3 is None else {"fine": state_of_grid(c3.flowdir), "area": cells_of(c3, "idxcells_area"),
+                                            "filled": cells_of(c3, "idxcells_area_filled")}
+            if got3 != want:
+                ctx.disagree("C16 history: Catchment.__add__/__sub__ differs from the model (Catchment.add / Catchment.sub)",
+                             {"kind": "history", "op": f"{how} {i} {k}", "history": list(hist), "left": a_, "right": b_,
+                              "got": got3, "model": want})
+            if got3 == want or c3 is None or want is None:
+                ops.append(f"{how} {i} {k}")
+                if c3 is not None and want is None:
+                    ops += [f"cc {i}", f"sf {len(cas)} {geom_tok(got3['fine'])}",
+                            f"sc {len(cas)} {opt_ilist(got3['area'])} {opt_ilist(got3['filled'])}"]
+            else:
+                ops += [f"cc {i}", f"sf {len(cas)} {geom_tok(got3['fine'])}",
+                        f"sc {len(cas)} {opt_ilist(got3['area'])} {opt_ilist(got3['filled'])}"]
+            if c3 is not None:
+                cas.append(c3)
+                M["cats"].append(got3)
+            m = f"combine({how} {i} {k})"
         elif m == "points_inplace":
             k = rng.choice(["shift", "reverse", "duplicate"])
             if k == "shift":
-                P += rng.choice([-1.0, 0.5, 2.0]) * float(fd.cellsize)
+                d = rng.choice([-1.0, 0.5, 2.0]) * mf["csz"]
+                P += d
+                M["pts"] = [(a + d, b + d) for a, b in M["pts"]]
             elif k == "reverse":
                 P[...] = P[::-1].copy()
+                M["pts"] = M["pts"][::-1]
             else:
                 P[0] = P[-1]
+                M["pts"] = [M["pts"][-1]] + M["pts"][1:]
+            ops.append(f"sp {pairs_tok(M['pts'], C.f2h)}")
         elif m == "toggle_filled":
             st8["filled"] = not st8["filled"]
         hist.append(m)
         call_all()
+    final = (f"final {len(M['cats'])} {len(M['grids'])} " + " ".join([cat_tok(c) for c in M["cats"]] +
+                                                                     [geom_tok(x) for x in M["grids"]] +
+                                                                     [pairs_tok(M["pts"], C.f2h)]))
+    calls.append((len(ops), final, {"kind": "history", "history": list(hist), "entry": "objects at the end of the history"}, None))
+    st.hreqs.append(head + (" " + " ".join(ops) if ops else ""))
+    st.hinfo.append(calls)
 
 
 # ---------------------------------------------------------------------------------------------
@@ -1140,7 +1412,8 @@ def body(ctx):
         elif kind == "voronoi":
             ca = catchment_from_lists(np, Grid, Catchment, case["fine"], case["area"], case["area"])
             run_voronoi(ctx, st, mods, gis, voronoi, ca, case["fine"], [int(c) for c in case["area"]],
-                        [(float(p[0]), float(p[1])) for p in case["points"]], "corpus", wrapper_ok, origin="corpus")
+                        [(float(p[0]), float(p[1])) for p in case["points"]], "corpus", wrapper_ok, origin="corpus",
+                        layout=case.get("points_layout", "c"))
 
     # ---- (catchment, coarse grid) pairs and Voronoi configurations on the same catchments
     npairs = ctx.scale(1800, 15000)
@@ -1160,7 +1433,9 @@ def body(ctx):
             done_i += 1
         for k in range(3):
             pts, kind = gen_points(rng, fine, area_l, done_v)
-            run_voronoi(ctx, st, mods, gis, voronoi, ca, fine, area_l, pts, kind, wrapper_ok)
+            lay = LAYOUTS[(done_v + done_v // len(LAYOUTS)) % len(LAYOUTS)]
+            run_voronoi(ctx, st, mods, gis, voronoi, ca, fine, area_l, pts, kind + ("" if lay == "c" else "/layout=" + lay),
+                        wrapper_ok, layout=lay)
             done_v += 1
         if ic % 25 == 0 and zero_pts_ok:
             # malformed stream: no point, and a catchment with no cell (NaN weights, intersect raises)
@@ -1211,12 +1486,20 @@ def body(ctx):
         ok = True
         t = rep.split(" ")
         if kind == "isect":
-            ok = t[0] == "ok" and len(t) == 12
+            ok = t[0] == "ok" and len(t) == NTOK
             if ok:
                 mp = sorted(zip([int(k) for k in C.parse_list(t[1])], [F(x) for x in C.parse_list(t[2])]))
                 ok = [k for k, _ in mp] == [k for k, _ in got] and \
                     all(relclose(F(a), b, F(1, 10 ** 11)) for (_, a), (_, b) in zip(got, mp)) and \
                     tuple(int(x) for x in t[3:7]) == extra
+        elif kind == "spec":
+            ok = len(t) == 5
+            if ok:
+                mp = sorted(zip([int(k) for k in C.parse_list(t[0])], [F(x) for x in C.parse_list(t[1])]))
+                tot = sum(F(v) for _, v in got) * F(case["coarse"]["csz"]) ** 2
+                ok = [k for k, _ in mp] == [k for k, _ in got] and \
+                    all(relclose(F(a), b, F(1, 10 ** 11)) for (_, a), (_, b) in zip(got, mp)) and \
+                    int(t[2]) == extra and F(t[3]) == F(t[4]) and relclose(tot, F(t[3]), F(1, 10 ** 10))
         elif kind == "kern":
             ok = len(t) == 2
             if ok:
@@ -1232,16 +1515,36 @@ def body(ctx):
             ctx.disagree("C16: code differs from the exact (Rat) model on a case the exact oracle decides",
                          {"request": req[:400], **case, "model": rep[:1000]})
 
+    # ---- whole histories through the model's `hrun` (Model/C16Hist.lean): every call's answer, in order
+    hreplies = ctx.lean.ask(st.hreqs)
+    ncalls = 0
+    for req, calls, rep in zip(st.hreqs, st.hinfo, hreplies):
+        parts = rep.split(" | ")
+        for pos, impl, case, canon in calls:
+            ncalls += 1
+            mrep = parts[pos] if pos < len(parts) else f"missing reply {pos} of {len(parts)}: {rep[:200]}"
+            if canon is not None:
+                mrep = canon(mrep)
+            if impl != mrep and tolerant_equal(impl, mrep, case):
+                mrep = impl
+            ctx.compare("C16-history", {"request": req[:400], "op_index": pos, **case}, impl[:4000], mrep[:4000])
+    ctx.extra["history_calls_compared_with_hrun"] = ncalls
+
     ctx.extra["rule"] = __doc__.split("Cases:")[1].strip()
     ctx.extra["pairs"] = done_i
     ctx.extra["voronoi_configurations"] = done_v
     ctx.extra["exact_model_comparisons"] = len(st.qreqs)
     ctx.extra["voronoi_wrapper_called_with_more_cells_than_points"] = wrapper_ok
     ctx.assumptions += [
-        "theorems are over an ordered field with floor (exact arithmetic); IEEE rounding is covered by the bit-exact Float "
-        "correspondence and by comparing the code with the exact model where no centre is within 1e-9 cells of a coarse edge "
-        "(or the float pipeline is exact) and no two distinct Voronoi points are within 1e-9 relative distance of a tie",
-        "cell sizes > 0, grid shapes >= 1 (the property's quantifier); catchment cell lists hold distinct valid cells",
+        "parts B-E of the theorems are over an ordered field with floor (exact arithmetic); IEEE rounding is covered by the "
+        "bit-exact Float correspondence, by comparing the code with the exact model where no centre is within 1e-9 cells of "
+        "a coarse edge (or the float pipeline is exact) and no two distinct Voronoi points are within 1e-9 relative distance "
+        "of a tie, and by part F: theorems about the model at any rounded arithmetic (monotone idempotent rounding, exact on "
+        "naturals <= N) — that IEEE-754 doubles are such an arithmetic is assumed, not formalised",
+        "cell sizes > 0, grid shapes >= 1 (the property's quantifier; Grid attributes are never validated by the code: "
+        "geometries outside it are probed for agreement with the model only); catchment cell lists hold distinct valid cells",
+        "histories: the objects behave as the model's World (attribute assignment, deepcopy / pickle / clone copy everything "
+        "the property reads); checked by replaying every operation list through hrun",
         "Voronoi points are finite with |coordinate| <= 1e150 (no overflow of dx*dx); NaN / inf points are outside the quantifier",
         "how the catchment got its cell set (delineate_area, from_dict, hole filling) is not part of this property: "
         "the model is fed the cell lists the Catchment object holds",
@@ -1253,4 +1556,5 @@ def main(tier, replay=None):
                        trusted=["numpy array conversion, np.min / np.max / np.unique and fancy-index assignment in "
                                 "Catchment.intersect (modelled: min/max folds, element-wise scatter)",
                                 "Model/C07.lean geometry (its own correspondence is C07's check)",
+                                "IEEE-754 double arithmetic is a `Rounding` in the sense of Lemmas/C16Rnd.lean (part F)",
                                 "x86-64 double -> long long conversion for NaN rows (modelled)"])
